@@ -13,12 +13,13 @@ PROP = 'C04'
 MANIFEST = dict(
     technique='TLA+ model (Rot/RotOps: exact rational rotations, Euler extraction with gimbal branch, operand dispatch table) checked by TLC; TLC-generated expressions replayed on real Vec/Angle/Matrix objects; implementation records validated by TLC (RotTrace)',
     category='model_checking',
-    text='TLC checks on exact arithmetic (90-degree lattice and 3-4-5 rationals, all 1728 Euler triples) that from_angle is a proper rotation equal to roll.pitch.yaw, that matrix -> angle -> matrix is the identity including the gimbal branch, inverse = transpose, associativity of every expression ((s OP r1) OP r2) over all 7 operand classes and the forms @, @=, reflected @, and the soundness of the dispatch table. Every TLC-generated expression is executed on the real objects and every operator application (result class, identity, operands before/after, value rounded to the common denominator with error < 1e-9) is judged by TLC against the same operators; from_angle/to_angle/transpose/inverse are validated for every triple of the domain. The continuum (reals, all multiples of 15 degrees, 1e-12..1e-1 degrees around the poles, magnitudes to 1e6) is evaluated numerically by the harness along the same TLC-generated expression shapes; TLC only compares those residues with the tolerances of the property (coverage.numeric_residue).',
+    text='TLC checks on exact arithmetic (90-degree lattice and 3-4-5 rationals, all 1728 Euler triples) that from_angle is a proper rotation equal to roll.pitch.yaw, that matrix -> angle -> matrix is the identity including the gimbal branch, inverse = transpose, associativity of every expression ((s OP r1) OP r2) over all 7 operand classes and the forms @, @=, reflected @, and the soundness of the dispatch table. Every TLC-generated expression is executed on the real objects and every operator application (result class, identity, operands before/after, value rounded to the common denominator with error < 1e-9) is judged by TLC against the same operators; from_angle/to_angle/transpose/inverse are validated for every triple of the domain. The continuum (reals, all multiples of 15 degrees, 1e-12..1e-1 degrees around the poles, magnitudes to 1e6) is evaluated numerically by the harness along the same TLC-generated expression shapes, and for every constructor of a rotation (from_basis with each subset of axes, Angle.from_basis, axis_angle, from_yaw/pitch/roll, from_angstr, Vec.to_angle, to_angle_roll) on inputs straddling each numeric threshold found in the source of the constructors (poles, 1e-9..1e-1 off the pole in half-decades, 8 tilt directions, non-unit lengths); TLC only compares those residues with the tolerances of the property (coverage.numeric_residue).',
     design_ref='4 (C04)',
     note='Exact domain decided by TLC; arbitrary reals are a numeric residue computed by the harness with an independent float implementation of the Source convention (TLC has no floats). Pure-Python math.py only (the Cython _math cannot be built here).',
 )
 
-NUM_LAWS = {'proper', 'convention', 'roundtrip', 'inverse', 'step', 'assoc'}
+NUM_LAWS = {'proper', 'convention', 'roundtrip', 'inverse', 'step', 'assoc',
+            'ctor.proper', 'ctor.inverse', 'ctor.length', 'ctor.axis', 'ctor.convention'}
 
 
 def sig_of(m: dict) -> dict:
@@ -91,6 +92,14 @@ def run(tier: str, seed: int) -> int:
         st = json.loads(core.run_driver('c04_driver.py', ['shapes', ef, out], env=env).strip().splitlines()[-1])
         cov['shapes'] = st['shapes']
         cov['exact_shape_instances'] = st['exact_shapes']
+        files.append((out, 16))
+        # 4b. every constructor of a rotation swept through its special-case thresholds (read from the source)
+        out = work.path('ctors.ndjson')
+        st = json.loads(core.run_driver('c04_driver.py', ['ctors', out], env=env).strip().splitlines()[-1])
+        if not st.get('constructor_cases') or not st['thresholds_in_source'].get('from_basis'):
+            raise core.MachineryError(f'constructor sweep is vacuous: {st}')
+        cov['constructor_sweep'] = {'cases': st['constructor_cases'], 'pole_offsets': st['pole_offsets'],
+                                    'thresholds_in_source': st['thresholds_in_source']}
         files.append((out, 16))
         # 5. TLC validates every record
         allm, total, samples = [], 0, []
